@@ -34,6 +34,9 @@ def _excluded(fid):
 
 EXCLUDE = _excluded("C13-remainder-returns-period")       # x < 0 with fl(fmod(x, p) + p) == p   (fixed in 4bec7b5)
 EXCLUDE_DIAG = _excluded("C13-mask-hole-on-diagonal")      # points within rounding distance of a vertex-vertex chord
+# raysect's triangulate2d finds no ear for some simple polygons whose non-adjacent vertices are (nearly) collinear - a rotated
+# comb or zigzag - and PolygonMask2D cannot be built (same root cause as C17-ear-clipping-collinear); such cases are counted
+EXCLUDE_EAR = _excluded("C13-ear-clipping-collinear")
 
 RULE = ("Wrapped object = recording callable c3 + c0*asinh(x) + c1*asinh(y) + c2*asinh(z) (odd, strictly monotone, finite for "
         "every finite double; vectors use the three cyclic rotations of the coefficient row), coefficients drawn in the "
@@ -1175,8 +1178,18 @@ def run_mask(case, ctx):
         ctx.nt((not convex) or (not ccw) or int(case.get("rot", 0)) != 0 or vi > 0)
         obj = _container(vf, verts)
         before = _snapshot(obj)
+        no_ear = False
         with ctx.cut("construct"):
-            w = M.PolygonMask2D(obj)
+            try:
+                w = M.PolygonMask2D(obj)
+            except RuntimeError as e:
+                if "at least one ear" in str(e) and EXCLUDE_EAR and not case.get("probe_known"):
+                    no_ear = True
+                else:
+                    raise
+        if no_ear:
+            ctx.label("excluded_known:ear-clipping")
+            continue
         ctx.check(_snapshot(obj) == before, "caller-owned", lambda: "PolygonMask2D modified the vertex container it was given (%s)" % vf)
 
         def evaluate(order, what):
